@@ -209,7 +209,7 @@ def _arena_pipeline_rest(tier, focus, variants, key, t0, thorough, wd, bins, mc,
         raise ToolError("TLC saw %d records, replayer wrote %d" % (checked, stats["lines"]))
     bad = {p: tagged_index_sets(results, parts, "BAD_" + p) for p in ARENA_PROPS}
     drift = tagged_index_sets(results, parts, "DRIFT")
-    counters = {k: tagged_int(results, k) for k in ("N_EXIT", "N_REALLOC", "N_NEWCHUNK", "N_RECLAIM", "N_FAIL", "N_CLAIMED_OP", "N_ALIGNED", "N_REUSE", "N_PREP", "N_COMMIT", "N_PARTS", "N_AGAIN", "N_TRYWITH_ERR", "N_VALUE")}
+    counters = {k: tagged_int(results, k) for k in ("N_EXIT", "N_REALLOC", "N_NEWCHUNK", "N_RECLAIM", "N_FAIL", "N_CLAIMED_OP", "N_ALIGNED", "N_REUSE", "N_PREP", "N_COMMIT", "N_PARTS", "N_AGAIN", "N_TRYWITH_ERR", "N_VALUE", "N_ITERMUT")}
     shutil.rmtree(d, ignore_errors=True)
     mc.out = mc.out[-4000:]
     if mc2 is not None:
